@@ -8,6 +8,7 @@ mod reflect;
 mod props {
     pub mod c09;
     pub mod keys;
+    pub mod blocksgen;
 }
 
 use common::{CaseOut, Tier};
@@ -19,6 +20,7 @@ fn prop_header(prop: &str) -> &'static str {
     match prop {
         "C09" => props::c09::HEADER,
         "C06" | "C07" | "C08" => props::keys::HEADER,
+        "C03" | "C05" | "C12" => props::blocksgen::HEADER,
         _ => panic!("unknown property {prop}"),
     }
 }
@@ -26,6 +28,9 @@ fn prop_header(prop: &str) -> &'static str {
 fn prop_gen(prop: &str, rng: &mut Rng, idx: usize, tier: Tier) -> CaseOut {
     match prop {
         "C09" => props::c09::generate(rng, idx, tier),
+        "C03" => props::blocksgen::generate(props::blocksgen::Mode::Blocks, rng, idx, tier),
+        "C05" => props::blocksgen::generate(props::blocksgen::Mode::Tags, rng, idx, tier),
+        "C12" => props::blocksgen::generate(props::blocksgen::Mode::Damaged, rng, idx, tier),
         "C06" => props::keys::generate(props::keys::Rule::Sorted, rng, idx, tier),
         "C07" => props::keys::generate(props::keys::Rule::Unique, rng, idx, tier),
         "C08" => props::keys::generate(props::keys::Rule::Pattern, rng, idx, tier),
